@@ -235,6 +235,8 @@ def conc_bp_single(schema, C, f, kind, a):
     k = a["k"]
     if k == "int":
         n = av.unint(a)
+        if kind == "enum" and a.get("foreign") and "F" in C:
+            return C["F"].try_value(n)        # a member of ANOTHER enum class with that number (an enum value is an int)
         return C[f["enum"]].try_value(n) if kind == "enum" else n
     if k == "bool":
         return a["v"]
@@ -245,7 +247,7 @@ def conc_bp_single(schema, C, f, kind, a):
     if k == "str":
         return av.uncps(a["cp"])
     if k == "bytes":
-        return bytes(a["b"])
+        return bytearray(a["b"]) if a.get("ba") else bytes(a["b"])      # (a caller may hand in a bytearray)
     if k == "msg":
         if a.get("fresh"):
             return C[f["msg"]]()       # a newly constructed, never assigned message object (only used where that counts as present)
@@ -320,13 +322,22 @@ def obs_bp_single(schema, f, kind, v):
     if not _typed(kind, v):
         raise ObsError("field %s (%s) holds %r" % (f["name"], kind, type(v).__name__))
     if kind == "enum":
-        if isinstance(v, betterproto.Enum) and (type(v).__name__ != f["enum"] or _MODULE_OF.get("cur") not in (None, type(v).__module__)):
+        if _MODULE_OF.get("strict") and isinstance(v, betterproto.Enum) and (type(v).__name__ != f["enum"] or _MODULE_OF.get("cur") not in (None, type(v).__module__)):
             raise ObsError("field %s (enum %s) holds a member of %s.%s" % (f["name"], f["enum"], type(v).__module__, type(v).__name__))
         return av.aint(int(v))
     return scalar_aval(kind, v)
 
 
 _MODULE_OF = {}
+
+
+def obs_decoded(schema, m, ty):
+    """observation of a message that was just *decoded*: in addition every enum field must hold a member of its own enum class"""
+    _MODULE_OF["strict"] = True
+    try:
+        return obs_bp(schema, m, ty)
+    finally:
+        _MODULE_OF["strict"] = False
 
 
 def obs_bp(schema, m, ty):
@@ -574,7 +585,7 @@ def _obs_ref_single(schema, f, kind, v):
     if kind == "wrap":
         return {"k": "wrapv", "v": _obs_ref_single(schema, f, f["vkind"], v.value)}
     if kind == "enum":
-        if isinstance(v, betterproto.Enum) and (type(v).__name__ != f["enum"] or _MODULE_OF.get("cur") not in (None, type(v).__module__)):
+        if _MODULE_OF.get("strict") and isinstance(v, betterproto.Enum) and (type(v).__name__ != f["enum"] or _MODULE_OF.get("cur") not in (None, type(v).__module__)):
             raise ObsError("field %s (enum %s) holds a member of %s.%s" % (f["name"], f["enum"], type(v).__module__, type(v).__name__))
         return av.aint(int(v))
     return scalar_aval(kind, v)
